@@ -5,7 +5,7 @@ import os, sys, re
 sys.path.insert(0, os.path.join(os.path.dirname(os.path.abspath(__file__)), '..', 'bin'))
 from vlib import *
 
-IN_SCOPE = re.compile(r'Queue<|BusRequest|ActiveBusRequest|PollRequest|ScanRequest|TrackedReq|addRequest|m_finishedRequests|m_nextRequests')
+IN_SCOPE = re.compile(r'Queue<|BusRequest|ActiveBusRequest|PollRequest::|ScanRequest::(?!notify)|TrackedReq|::addRequest|::sendAndWait')
 HARNESS_ONLY = re.compile(r'/verif/harness/')
 
 
@@ -24,7 +24,16 @@ def tsan_reports(err):
         key = 'tsan:%s:%s' % (kind, re.sub(r'\(.*', '', top).strip())
         if not repo_frames:
             continue    # both stacks entirely inside the harness/runtime: a harness artefact, not ebusd
-        if IN_SCOPE.search(b):
+        # in scope: one of the two conflicting accesses happens in the request hand-over itself (queue, request object,
+        # addRequest/sendAndWait); races on other shared state reached from a request callback (message map, message data,
+        # status flags) are listed but belong to no statement of C04
+        tops = []
+        for sec in re.split(r'\n\s*\n', b):
+            if re.match(r'\s*(WARNING: ThreadSanitizer.*\n)?\s*((Previous )?(atomic )?(read|write)|(Read|Write)) of size', sec, re.I):
+                fr = [f for f, pth in re.findall(r'#\d+ ([^\n]*?) (/[^\s:]+):\d+', sec) if pth.startswith('/repo/src') or pth.startswith('/verif/harness')]
+                if fr:
+                    tops.append(fr[0])
+        if any(IN_SCOPE.search(t) for t in tops):
             ins.append((key, b[:3000]))
         else:
             outs.append((key, b[:600]))
@@ -35,14 +44,18 @@ def main():
     c = Check('C04', level='fault_enumeration')
     exe = build_harness('asan', 'c04_driver', ['c04_driver.cpp', 'vbus.cpp'], wraps=WRAPS_BUS)
     exe_t = build_harness('tsan', 'c04_driver', ['c04_driver.cpp', 'vbus.cpp'], wraps=WRAPS_BUS)
+    exe_b = build_harness('asan', 'c04b_driver', ['c04b_driver.cpp', 'vbus.cpp'], wraps=WRAPS_BUS, need_ebusd=True)
+    exe_bt = build_harness('tsan', 'c04b_driver', ['c04b_driver.cpp', 'vbus.cpp'], wraps=WRAPS_BUS, need_ebusd=True)
     nD, maxf = (12, 100000) if c.thorough else (1, 25)
     cmds = [[exe, 'mode=D', 'seed=%d' % (c.seed * 100 + i), 'n=%d' % nD, 'maxfaults=%d' % maxf] for i in range(16)]
     cmds += [[exe, 'mode=S', 'seed=%d' % (c.seed * 100 + 50 + i), 'n=%d' % (120 if c.thorough else 3)] for i in range(8)]
+    cmds += [[exe_b, 'seed=%d' % (c.seed * 100 + 70 + i), 'n=%d' % (400 if c.thorough else 12)] for i in range(8)]
     res = run_shards(cmds, timeout=7200 if c.thorough else 900)
     c.add_result(res)
     tot = merge_stats(res.stats)
     # TSan runs: reports are classified, not fatal
     tcmds = [[exe_t, 'mode=S', 'seed=%d' % (c.seed * 100 + 80 + i), 'n=%d' % (40 if c.thorough else 2)] for i in range(8)]
+    tcmds += [[exe_bt, 'seed=%d' % (c.seed * 100 + 90 + i), 'n=%d' % (100 if c.thorough else 4)] for i in range(4)]
     e = dict(os.environ)
     e['TSAN_OPTIONS'] = 'halt_on_error=0:exitcode=0:report_signal_unsafe=0:history_size=4'
     import subprocess, concurrent.futures
@@ -84,7 +97,14 @@ def main():
                 'with ONE fault at each call index (poll hang-up, read error, read 0, write error, short write; quick: every k-th index, max %d '
                 'per scenario) plus 12 device-invalid/reopen and 12 signal-loss windows. mode S: 2..8 free running client threads x 20..60 '
                 'requests with random yields and periodic faults, under ASan+UBSan and under TSan. non-trivial = run in which an injected '
-                'fault fired (D) / with faults or contended waits (S); runs are distinct by (scenario seed, fault index)' % maxf,
+                'fault fired (D) / with faults or contended waits (S); runs are distinct by (scenario seed, fault index). Part B '
+                '(c04b_driver): the request kinds the daemon itself creates on the threaded stack - 1..4 client threads reading their messages through '
+                'BusHandler::readFromBus (sendAndWait), PollRequests created on ps_empty for 1..5 poll messages and a chained one, '
+                'scanAndWait + startScan, foreign traffic and 0..4 I/O faults; every successful read / stored poll result must be the answer '
+                'to its own telegram and backed by a valid exchange on the wire, sent-message reports <= valid own exchanges; ASan/LSan and TSan' % maxf,
+        'part_b_runs': int(tot.get('poll_triggers', 0) > 0) and int(tot.get('evaluations', 0)), 'part_b_ok_reads': int(tot.get('ok_reads', 0)),
+        'part_b_polled_messages': int(tot.get('polled_messages', 0)), 'part_b_chained_polls': int(tot.get('chained_polls_completed', 0)),
+        'part_b_scan_results': tot.get('scan_results', {}), 'part_b_read_results': tot.get('read_results', {}),
         'io_calls_observed': int(tot.get('io_calls', 0)), 'faults_fired': int(tot.get('faults_fired', 0)),
         'fault_kinds': tot.get('fault_kinds', {}), 'request_kinds': tot.get('kinds', {}), 'request_results': tot.get('results', {}),
         'client_wait_episodes': int(tot.get('client_wait_episodes', 0)) + int(ttot.get('client_wait_episodes', 0)),
